@@ -370,7 +370,24 @@ def r6_parent_seeds(ctx: Context) -> None:
 
 
 # ---------------------------------------------------------------------------------------------- R7
-INERT_CALLS = {"print", "numpy.round", "numpy.min", "numpy.max", "numpy.average", "numpy.mean", "textwrap.dedent", "round", "len", "str", "format", "type", "min", "max"}
+INERT_CALLS = {"print", "numpy.round", "numpy.min", "numpy.max", "numpy.average", "numpy.mean", "numpy.median", "numpy.std", "textwrap.dedent", "round", "len", "str", "format", "type", "min", "max",
+               "float", "int", "repr", "sum", "abs", "sorted"}
+# methods that only build text / fill a local list when the receiver is a string literal, an f-string or a (non-parameter) local
+INERT_METHODS = {"join", "format", "append", "extend", "ljust", "rjust", "center", "strip", "upper", "lower", "title", "splitlines", "split", "replace", "item", "tolist"}
+
+
+def _inert_call(prog, f: FuncInfo, x: ast.Call) -> bool:
+    d = dotted(x.func)
+    q = prog.qualify(f.module, d) if d else None
+    if q in INERT_CALLS:
+        return True
+    if isinstance(x.func, ast.Attribute) and x.func.attr in INERT_METHODS:
+        r = x.func.value
+        if isinstance(r, (ast.Constant, ast.JoinedStr)):
+            return True
+        if isinstance(r, ast.Name) and r.id not in f.params and r.id != f.self_name:
+            return True
+    return False
 
 
 def _is_inert(prog, f: FuncInfo, node) -> tuple[bool, str]:
@@ -385,8 +402,7 @@ def _is_inert(prog, f: FuncInfo, node) -> tuple[bool, str]:
         return True, ""
     for x in ast.walk(a):
         if isinstance(x, ast.Call):
-            q = prog.qualify(f.module, dotted(x.func) or "") if dotted(x.func) else src(x.func)
-            if q not in INERT_CALLS:
+            if not _inert_call(prog, f, x):
                 return False, f"call `{src(x)[:50]}`"
         if isinstance(x, (ast.Yield, ast.Await)):
             return False, "yield"
@@ -424,6 +440,21 @@ def r7_non_interference(ctx: Context, v: CalibrateView) -> None:
                     ctx.check(ok, "R7.verbosity", f"{f.qualname.split(':')[1]}:under-verbose:{' '.join(src(nnode.ast).split())[:50] if nnode.ast is not None else nnode.kind}",
                               "statements that depend on verbosity only print",
                               f"{why} is executed depending on `{src(t.ast)}`: verbosity changes the computation, not just the output", f, nnode.ast or t.ast)
+                    # a local filled only under verbosity must not be read by statements that run regardless of it
+                    if ok and nnode.ast is not None:
+                        written = {x.id for x in ast.walk(nnode.ast) if isinstance(x, ast.Name) and isinstance(x.ctx, ast.Store)}
+                        written |= {x.func.value.id for x in ast.walk(nnode.ast) if isinstance(x, ast.Call) and isinstance(x.func, ast.Attribute)
+                                    and x.func.attr in ("append", "extend") and isinstance(x.func.value, ast.Name)}
+                        for other in g.live:
+                            if other.ast is None or other is nnode or other.kind in ("join",):
+                                continue
+                            deps2 = g.control_closure(other, head) if head is not None and other in v.loop_nodes else g.control_closure(other)
+                            if any(b is t for b, _ in deps2):
+                                continue
+                            used = {x.id for x in ast.walk(other.ast) if isinstance(x, ast.Name) and isinstance(x.ctx, ast.Load)} & written
+                            if used and not _is_inert(prog, f, other)[0]:
+                                ctx.fail("R7.verbosity", f"{f.qualname.split(':')[1]}:verbose-local:{sorted(used)[0]}",
+                                         f"`{sorted(used)[0]}` is computed only under `{src(t.ast)}` but is read by `{src(other.ast)[:60]}`, which runs regardless of verbosity", f, other.ast)
     ctx.floor("R7", "verbosity tests", n_tests, 3)
     # locals assigned under verbosity / from the clock must only reach prints
     cal = v.cal
@@ -437,12 +468,18 @@ def r7_non_interference(ctx: Context, v: CalibrateView) -> None:
             if isinstance(s, ast.Assign) and isinstance(s.targets[0], ast.Name) and s.targets[0].id not in tainted and any(isinstance(x, ast.Name) and x.id in tainted for x in ast.walk(s.value)):
                 tainted.add(s.targets[0].id)
                 changed = True
+            # a local list filled with text built from the clock
+            if isinstance(s, ast.Expr) and isinstance(s.value, ast.Call) and isinstance(s.value.func, ast.Attribute) and s.value.func.attr in ("append", "extend") \
+                    and isinstance(s.value.func.value, ast.Name) and s.value.func.value.id not in tainted and s.value.func.value.id not in cal.params \
+                    and any(isinstance(x, ast.Name) and x.id in tainted for a_ in s.value.args for x in ast.walk(a_)):
+                tainted.add(s.value.func.value.id)
+                changed = True
     for x in ast.walk(cal.node):
         if isinstance(x, ast.Name) and x.id in tainted and isinstance(x.ctx, ast.Load):
             cur = getattr(x, "_parent", None)
             sink = None
             while cur is not None and not isinstance(cur, ast.stmt):
-                if isinstance(cur, ast.Call) and not ((dotted(cur.func) or "") in ("print", "np.round", "textwrap.dedent", "round")):
+                if isinstance(cur, ast.Call) and not ((dotted(cur.func) or "") in ("print", "np.round", "textwrap.dedent", "round") or _inert_call(prog, cal, cur)):
                     sink = cur
                 cur = getattr(cur, "_parent", None)
             stmt = cur
